@@ -417,6 +417,7 @@ func hasOtherBVar(x, bv *Term) bool {
 }
 
 var occurring map[*Term]bool
+var boundedApps map[*Term]bool
 
 func instancesOf(pcIn []*Term, cands []*Term) []*Term {
 	return instancesOfGoal(pcIn, cands, nil)
@@ -447,7 +448,19 @@ func instancesOfGoal(pcIn []*Term, cands []*Term, goal *Term) []*Term {
 		mark(goal)
 	}
 	occurring = occ
-	defer func() { occurring = nil }()
+	// a specification-function value the path bounds directly (0 <= f(x), f(x) < n) is an index in its own right
+	bnd := map[*Term]bool{}
+	for _, t := range pcIn {
+		if (t.Op == "<" || t.Op == "<=") && len(t.Args) == 2 {
+			for _, a := range t.Args {
+				if a.Op == "app" && a.Sort == SInt && !a.open {
+					bnd[a] = true
+				}
+			}
+		}
+	}
+	boundedApps = bnd
+	defer func() { occurring = nil; boundedApps = nil }()
 	var out []*Term
 	seen := map[*Term]bool{}
 	var visit func(t *Term)
@@ -502,23 +515,18 @@ func instancesOfGoal(pcIn []*Term, cands []*Term, goal *Term) []*Term {
 				}
 			}
 		}
-		if t.Op == "=>" && t.Args[1].Op == "forall" {
-			// guarded fact: guard => forall ...
-			g := t.Args[0]
-			f := t.Args[1]
-			if len(f.Bound) == 1 && !f.open {
-				for _, c := range cands {
-					if c.Sort != f.Bound[0].Sort {
-						continue
-					}
-					if !triggered(triggersOf(f.Args[0], f.Bound[0]), f.Bound[0], c) {
-						continue
-					}
-					inst := Implies(g, Subst(f.Args[0], map[*Term]*Term{f.Bound[0]: c}))
-					if !inst.IsTrue() && !seen[inst] && !inst.open {
-						seen[inst] = true
-						out = append(out, inst)
-					}
+		if t.Op == "=>" {
+			// guarded fact: guard => (... forall ...): the instances of the consequent, under the guard
+			saved := out
+			out = nil
+			visit(t.Args[1])
+			got := out
+			out = saved
+			for _, i := range got {
+				inst := Implies(t.Args[0], i)
+				if !inst.IsTrue() && !seen[inst] && !inst.open {
+					seen[inst] = true
+					out = append(out, inst)
 				}
 			}
 		}
@@ -556,7 +564,7 @@ func triggered(trig []*Term, bv, cand *Term) bool {
 	if occurring == nil || cand.Sort.Kind == KDT {
 		return true
 	}
-	if len(trig) == 0 {
+	if len(trig) == 0 || boundedApps[cand] {
 		return true
 	}
 	for _, t := range trig {
